@@ -1,4 +1,362 @@
+/-
+C05 — property theorems (statements only live here; helper lemmas are in Proofs/C05/*.lean).
+
+Property: parallel_for (all range types, all four partitioners) applies the body exactly once to every element
+of the iteration space and to nothing outside it when the loop completes normally; every subrange handed to a
+body is non-empty, subranges are pairwise disjoint and cover the range, an indivisible range is never split,
+simple_partitioner chunks of a blocked_range have size in [⌈g/2⌉, g] — for every range size, grain, number of
+threads and steal pattern.
+
+How the quantifiers are met: sizes/grains are universally quantified naturals `< 2^64`; "number of threads" is the
+universally quantified `P` (`max_concurrency()`); "every steal pattern" is the universally quantified environment
+`E : Env σ` over an arbitrary state type `σ` — it answers every `is_stolen_task`, `parent ref count ≥ 2`,
+`is_peer_stolen` and cancellation read however it likes (`bitsEnv` is the instance "arbitrary stream of bits").
+Model functions use fuel; every theorem holds for every fuel for which the run finishes (`= some …`);
+`simple_terminates_example`-style `example`s show non-vacuity.
+-/
 import TbbVerif.Proofs.C05
+
 namespace TbbVerif.C05
-theorem placeholder : splitMid { b := 0, e := 10, g := 1 } = ({ b := 0, e := 5, g := 1 }, { b := 5, e := 10, g := 1 }) := by decide
+
+/-! ## blocked_range: the two splitting constructors -/
+
+/-- **Midpoint split stays inside.**  `blocked_range(r, split)` of a divisible range `[b,e)` (grain `g < e-b`):
+`r` keeps `[b,m)`, the new range is `[m,e)` with `m = b + (e-b)/2` and `b < m < e` — both parts non-empty,
+adjacent, covering; grain unchanged.  No overflow for any `e < 2^64`. -/
+theorem split_mid_inside (b e g : Nat) (hbe : b ≤ e) (he : e < 2 ^ 64) (hg : 1 ≤ g) (hdiv : g < e - b) :
+    splitMid { b := b, e := e, g := g } =
+      ({ b := b, e := b + (e - b) / 2, g := g }, { b := b + (e - b) / 2, e := e, g := g }) ∧
+    b < b + (e - b) / 2 ∧ b + (e - b) / 2 < e := by
+  have hw : WF1 { b := b, e := e, g := g } := ⟨hbe, he, hg⟩
+  obtain ⟨m, hm, h1, h2, h3⟩ := splitMid_spec hw ((R1.divisible_iff hw).2 hdiv)
+  simp only at h3
+  subst h3
+  exact ⟨hm, h1, h2⟩
+
+/-- `is_divisible()` is exactly `grainsize < size`, and an indivisible range has at most `g` elements. -/
+theorem divisible_iff (b e g : Nat) (hbe : b ≤ e) (he : e < 2 ^ 64) (hg : 1 ≤ g) :
+    (R1.divisible { b := b, e := e, g := g } = true ↔ g < e - b) :=
+  R1.divisible_iff ⟨hbe, he, hg⟩
+
+/-- **The float proportional split stays inside**, for every size `2 ≤ size < 2^64` — including sizes above
+`2^24` and `2^32` where `float(size)` is inexact — and every proportion `get_split` can produce
+(`1 ≤ right ≤ left ≤ right+1`, `left+right < 2^24`): the C++ expression
+`size_type(float(size) * float(right) / float(left + right) + 0.5f)` is defined (no infinity / out-of-range
+conversion) and its value satisfies `1 ≤ right_part ≤ size-1`. -/
+theorem split_prop_inside (size l r : Nat) (hs : 2 ≤ size) (hs' : size < 2 ^ 64) (hok : PropOK l r) :
+    ∃ rp, propRightPart size l r = some rp ∧ 1 ≤ rp ∧ rp ≤ size - 1 := by
+  obtain ⟨rp, h⟩ := propRightPart_isSome size l r hs hs' hok
+  have := propRightPart_bounds size l r rp hs hok h
+  exact ⟨rp, h, this.1, by omega⟩
+
+/-- … hence `blocked_range(r, proportional_split(l, r))` of a divisible range cuts at `b < m < e`. -/
+theorem split_prop_range_inside (b e g l rt : Nat) (hbe : b ≤ e) (he : e < 2 ^ 64) (hg : 1 ≤ g) (hdiv : g < e - b)
+    (hok : PropOK l rt) :
+    ∃ m, splitProp { b := b, e := e, g := g } l rt = some ({ b := b, e := m, g := g }, { b := m, e := e, g := g }) ∧
+      b < m ∧ m < e := by
+  have hw : WF1 { b := b, e := e, g := g } := ⟨hbe, he, hg⟩
+  have hd := (R1.divisible_iff hw).2 hdiv
+  obtain ⟨a, c, hs⟩ := splitProp_isSome (l := l) (rt := rt) hw hd hok
+  obtain ⟨m, ha, hc, h1, h2⟩ := splitProp_spec hw hd hok hs
+  exact ⟨m, by rw [hs, ha, hc], h1, h2⟩
+
+/-- The rounding model itself: `fl p` (round to nearest, ties to even, `p` significant bits) has relative error at
+most `2^-p` and is exact on integers below `2^p`. -/
+theorem float_model_sound (p : Nat) (hp : 1 ≤ p) :
+    (∀ q : Rat, 0 < q → fl p q ≤ q * (1 + 1 / 2 ^ p) ∧ q * (1 - 1 / 2 ^ p) ≤ fl p q) ∧
+    (∀ n : Nat, n < 2 ^ p → fl p (n : Rat) = n) :=
+  ⟨fun q hq => fl_err p hp q hq, fun n hn => fl_natCast p n hp hn⟩
+
+/-! ## 2d / 3d / nd: the dimension that is cut -/
+
+/-- **No indivisible dimension is ever cut** by `blocked_range2d`, `blocked_range3d`, `blocked_nd_range`:
+whenever some dimension is divisible, `do_split` selects a valid index of a divisible dimension — for all sizes
+and grains, with no exactness side condition.  This holds because the comparison is *guarded*
+(`second.is_divisible() && (!first.is_divisible() || ratio comparison)`); which rule the code has is regenerated
+from the current tree (`Generated.C05.sel2Guarded` …).  With the bare binary64 ratio comparison this theorem is
+false: for rows `[0,1)` grain 1 and cols `[0,2^53+1)` grain `2^53` both products round to `2^53`, the tie picks the
+indivisible rows and the split returns an empty range plus a copy of the original. -/
+theorem nd_split_never_cuts_indivisible :
+    (∀ rows cols : R1, SelOK sel2 [rows, cols]) ∧ (∀ pages rows cols : R1, SelOK sel3 [pages, rows, cols]) ∧
+    (∀ d : List R1, SelOK selNd d) := by
+  have g2 : Generated.C05.sel2Guarded = true := by decide
+  have g3 : Generated.C05.sel3Guarded = true := by decide
+  have gn : Generated.C05.selNdGuarded = true := by decide
+  refine ⟨fun rows cols => ?_, fun pages rows cols => ?_, fun d => ?_⟩
+  · exact sel2_ok (D := fun _ => True) (by rw [g2]; exact pickLaw_guarded) rows cols trivial trivial
+  · exact sel3_ok (D := fun _ => True) (by rw [g3]; exact pickLaw_guarded) pages rows cols trivial trivial trivial
+  · exact selNd_ok (D := fun _ => True) (by rw [gn]; exact pickLaw_guarded) d (fun _ _ => trivial)
+
+/-- well-formed N-d range: every dimension has `begin ≤ end < 2^64` and grain `≥ 1` -/
+def WFd (n : Nat → Prop) (d : List R1) : Prop := WFN n (fun _ => True) d
+
+/-- the Range laws for the three multi-dimensional range types (a consequence of the theorem above) -/
+def sem2 : RangeSem (opsN sel2) :=
+  semN sel2 (· = 2) (fun _ => True) extraShrinks_true (by
+    intro d hw _
+    match d, hw with
+    | [rows, cols], _ => exact nd_split_never_cuts_indivisible.1 rows cols
+    | [], hw => exact absurd hw.1 (by simp)
+    | [_], hw => exact absurd hw.1 (by simp)
+    | _ :: _ :: _ :: _, hw => exact absurd hw.1 (by simp))
+
+def sem3 : RangeSem (opsN sel3) :=
+  semN sel3 (· = 3) (fun _ => True) extraShrinks_true (by
+    intro d hw _
+    match d, hw with
+    | [pages, rows, cols], _ => exact nd_split_never_cuts_indivisible.2.1 pages rows cols
+    | [], hw => exact absurd hw.1 (by simp)
+    | [_], hw => exact absurd hw.1 (by simp)
+    | [_, _], hw => exact absurd hw.1 (by simp)
+    | _ :: _ :: _ :: _ :: _, hw => exact absurd hw.1 (by simp))
+
+def semNd : RangeSem (opsN selNd) :=
+  semN selNd (1 ≤ ·) (fun _ => True) extraShrinks_true (fun d _ _ => nd_split_never_cuts_indivisible.2.2 d)
+
+/-! ## range_vector -/
+
+/-- **rangevec_tiles.**  Start the 8-slot ring `range_vector` with a range `r` and apply any sequence of the
+operations `work_balance` uses (`split_to_fill(max_depth)`, `pop_back`, `pop_front`; each a no-op on an empty pool,
+where the code asserts).  Then at every moment: the ring stores at most `capacity` ranges, its `my_size` is the
+number of stored ranges, the stored ranges are found at the distinct slots `(my_head - j) mod capacity` (ring
+indices never collide), and the stored ranges together with the ranges that have left the pool are the leaves of a
+legal split tree of `r` — the pool always tiles what remains of the task's range. -/
+theorem rangevec_tiles {R : Type} (ops : RangeOps R) (r : R) (os : List RV.Op) :
+    let st := os.foldl (RV.step ops) (RV.init r, [])
+    ∃ items, RV.Inv st.1 items ∧ st.1.toList = items ∧ st.1.size = items.length ∧ items.length ≤ Generated.C05.poolCapacity ∧
+      (∀ j j', j < items.length → j' < items.length → st.1.slot j = st.1.slot j' → j = j') ∧
+      Leaves ops r (items.map Prod.fst ++ st.2) := by
+  intro st
+  have key : ∀ (os : List RV.Op) (s0 : RV R × List R),
+      (∃ items, RV.Inv s0.1 items ∧ Leaves ops r (items.map Prod.fst ++ s0.2)) →
+      ∃ items, RV.Inv (os.foldl (RV.step ops) s0).1 items ∧ Leaves ops r (items.map Prod.fst ++ (os.foldl (RV.step ops) s0).2) := by
+    intro os
+    induction os with
+    | nil => intro s0 h; simpa using h
+    | cons o os ih => intro s0 h; exact ih _ (RV.step_inv ops r s0 o h)
+  obtain ⟨items, hi, hl⟩ := key os (RV.init r, []) ⟨[(r, 0)], RV.inv_init r, by simpa using Leaves.refl (ops := ops) r⟩
+  refine ⟨items, hi, RV.toList_eq hi, hi.size, hi.le, ?_, hl⟩
+  intro j j' hj hj' he
+  exact RV.slot_inj _ hi.head j j' (Nat.lt_of_lt_of_le hj hi.le) (Nat.lt_of_lt_of_le hj' hi.le) he
+
+/-- the ring operations act on the stored list exactly like the list operations the task model uses -/
+theorem rangevec_refines {R : Type} (ops : RangeOps R) (v : RV R) (items : List (R × Nat)) (h : RV.Inv v items) :
+    (∀ md f, items ≠ [] → RV.Inv (RV.splitToFill ops md f v) (fillPool ops md f items)) ∧
+    (∀ x rest, items = x :: rest → v.back = some x.1 ∧ v.backDepth = x.2 ∧ RV.Inv v.popBack rest) ∧
+    (∀ x init, items = init ++ [x] → v.front = some x.1 ∧ RV.Inv v.popFront init) := by
+  refine ⟨fun md f hne => RV.inv_splitToFill ops md f v items h hne, ?_, ?_⟩
+  · intro x rest he; subst he
+    exact ⟨(RV.back_eq h).1, (RV.back_eq h).2, RV.inv_popBack h⟩
+  · intro x init he; subst he
+    exact ⟨RV.front_eq h, RV.inv_popFront h⟩
+
+/-! ## Partition objects -/
+
+/-- The proportions the static and affinity partitioners hand to the range are always legal: whenever
+`is_divisible()` says yes, `get_split()` yields `left:right` with `1 ≤ right ≤ left ≤ right+1` (so the float split
+above applies), and both partition objects keep the invariant (divisor a multiple of the factor, `< 2^24·factor`). -/
+theorem partition_proportions_legal (p p' : Part) (hk : p.kind = .static ∨ p.kind = .affinity) (hi : PartInv p)
+    (hd : partIsDivisible p = (true, p')) :
+    let n := p.divisor / factor p.kind
+    PropOK (n - n / 2) (n / 2) ∧ PartInv (partPSplit p (n - n / 2) (n / 2)).1 ∧ PartInv (partPSplit p (n - n / 2) (n / 2)).2 := by
+  intro n
+  obtain ⟨_, hok⟩ := propOK_of_divisible p p' hk hi hd
+  have hgt : p.divisor > factor p.kind := by
+    unfold partIsDivisible at hd
+    rcases hk with hkk | hkk
+    · rw [hkk] at hd ⊢; simp only [Prod.mk.injEq, decide_eq_true_eq] at hd; exact hd.1
+    · rw [hkk] at hd ⊢; simp only [Prod.mk.injEq, decide_eq_true_eq] at hd; exact hd.1
+  obtain ⟨i1, i2, _, _⟩ := partPSplit_inv p hk hi hgt n rfl
+  exact ⟨hok, i1, i2⟩
+
+/-- every root partition object satisfies the invariant when `max_concurrency() < 2^24` -/
+theorem partition_init_ok (k : Kind) (P slot : Nat) (hP : P < 2 ^ 24) : PartInv (initPart k P slot) :=
+  partInv_init k P slot hP
+
+/-! ## One task, every steal pattern -/
+
+section generic
+variable {R σ : Type} {ops : RangeOps R} (S : RangeSem ops) (E : Env σ)
+
+/-- **task_tiles.**  For every range type satisfying the range laws, every partitioner, every partition state
+satisfying the invariant, *every environment* (every pattern of stolen / parent-ref / peer-stolen / cancelled
+answers) and every fuel: if the `start_for` task finishes, then the ranges it ran the body on, the ranges it gave to
+the children it spawned and the ranges it dropped because of cancellation are, up to order, the leaves of a legal
+split tree of its range (every inner node a *divisible* range cut by one of the two splitting constructors).
+Consequently every such range is non-empty, every point of the task's range lies in exactly one of them and points
+outside lie in none, an indivisible range is run whole, the children get invariant-satisfying partition objects,
+and nothing is dropped unless the environment reported cancellation. -/
+theorem task_tiles (fuel : Nat) (r : R) (p : Part) (s s' : σ) (evs : List (Ev R)) (hg : S.Good r) (hi : PartInv p)
+    (h : execTask ops E fuel r p s = some (evs, s')) :
+    Leaves ops r (evR evs) ∧
+    (∀ x ∈ evR evs, S.WF x ∧ ops.isEmpty x = false) ∧
+    (∀ pt, (evR evs).countP (S.memb pt) = (S.memb pt r).toNat) ∧
+    (ops.divisible r = false → evR evs = [r]) ∧
+    (∀ r' p', Ev.spawn r' p' ∈ evs → PartInv p') ∧
+    (NoCancel E → ∀ r', Ev.drop r' ∉ evs) := by
+  obtain ⟨hl, hk⟩ := execTask_inv (ops := ops) (E := E) fuel r p s s' evs hi h
+  obtain ⟨h1, h2⟩ := hl.sound S hg
+  exact ⟨hl, h1, h2, fun hd => hl.indivisible hd, hk.1, hk.2⟩
+
+/-- **loop_exactly_once.**  `start_for::run(range, body, partitioner)` for a well-formed range, `max_concurrency()
+= P < 2^24`, any calling slot, any partitioner, *any environment*, any fuel for which the closure over the task
+tree finishes: the chunks handed to the body together with the ranges dropped by cancellation are the leaves of a
+legal split tree of the range — each is non-empty, and every point is in exactly as many of them as it is in the
+range (1 inside, 0 outside; an empty range produces nothing at all).  If the environment never reports
+cancellation nothing is dropped, so this is a statement about the chunks alone. -/
+theorem loop_exactly_once [DecidableEq R] (fuel : Nat) (k : Kind) (P slot : Nat) (r : R) (s s' : σ) (ran dropped : List R)
+    (hw : S.WF r) (hP : P < 2 ^ 24) (h : runLoop ops E fuel k P slot r s = some (ran, dropped, s')) :
+    (∀ x ∈ ran ++ dropped, S.WF x ∧ ops.isEmpty x = false) ∧
+    (∀ pt, (ran ++ dropped).countP (S.memb pt) = (S.memb pt r).toNat) ∧
+    (NoCancel E → dropped = []) ∧
+    (ops.isEmpty r = false → Leaves ops r (ran ++ dropped)) := by
+  unfold runLoop at h
+  split at h
+  · rename_i he
+    simp only [Option.some.injEq, Prod.mk.injEq] at h
+    obtain ⟨h1, h2, _⟩ := h
+    subst h1; subst h2
+    refine ⟨by simp, fun pt => ?_, fun _ => rfl, fun hne => by rw [he] at hne; cases hne⟩
+    simp [S.empty_no_mem r pt hw he]
+  · rename_i he
+    have he' : ops.isEmpty r = false := by simpa using he
+    obtain ⟨hl, hnd⟩ := runTasks_inv (ops := ops) (E := E) (r0 := r) fuel [(r, initPart k P slot)] s [] [] ran dropped s'
+      (by simpa using Leaves.refl (ops := ops) r) (by intro x hx; simp only [List.mem_singleton] at hx; subst hx; exact partInv_init k P slot hP) h
+    obtain ⟨g1, g2⟩ := hl.sound S ⟨hw, he'⟩
+    exact ⟨g1, g2, hnd, fun _ => hl⟩
+
+end generic
+
+/-! ### the same, spelled out for `blocked_range<size_t>` -/
+
+/-- **Exactly once, 1-d.**  For every `[b,e)` with `e < 2^64`, every grain `g ≥ 1`, every partitioner, every
+`P < 2^24`, every environment that never reports cancellation: every chunk `[c.b, c.e)` handed to the body is
+non-empty and inside `[b,e)`, and every index `i` is covered by exactly one chunk if `b ≤ i < e` and by none
+otherwise. -/
+theorem loop_exactly_once_1d {σ : Type} (E : Env σ) (fuel : Nat) (k : Kind) (P slot b e g : Nat) (s s' : σ)
+    (ran dropped : List R1) (hbe : b ≤ e) (he : e < 2 ^ 64) (hg : 1 ≤ g) (hP : P < 2 ^ 24) (hnc : NoCancel E)
+    (h : runLoop ops1 E fuel k P slot { b := b, e := e, g := g } s = some (ran, dropped, s')) :
+    dropped = [] ∧ (∀ c ∈ ran, c.b < c.e) ∧
+    ∀ i, ran.countP (fun c => decide (c.b ≤ i ∧ i < c.e)) = if b ≤ i ∧ i < e then 1 else 0 := by
+  obtain ⟨h1, h2, h3, _⟩ := loop_exactly_once sem1 E fuel k P slot _ s s' ran dropped ⟨hbe, he, hg⟩ hP h
+  have hd := h3 hnc
+  subst hd
+  simp only [List.append_nil] at h1 h2
+  refine ⟨rfl, fun c hc => (R1.isEmpty_iff c).1 (h1 c hc).2, fun i => ?_⟩
+  have := h2 i
+  show List.countP (mem1 i) ran = _
+  simp only [sem1] at this
+  rw [this]
+  by_cases hi : b ≤ i ∧ i < e <;> simp [mem1, hi]
+
+/-- **Exactly once, 2d / 3d / nd.**  The same for boxes: every chunk is a non-empty box and every point (a list of
+coordinates) is in exactly one chunk if it is in the box and in none otherwise. -/
+theorem loop_exactly_once_nd {σ : Type} (E : Env σ) (fuel : Nat) (k : Kind) (P slot : Nat) (d : List R1) (s s' : σ)
+    (ran dropped : List (List R1)) (hwf : ∀ r ∈ d, WF1 r) (hP : P < 2 ^ 24) (hnc : NoCancel E) :
+    (d.length = 2 → runLoop (opsN sel2) E fuel k P slot d s = some (ran, dropped, s') →
+      dropped = [] ∧ (∀ c ∈ ran, c.any R1.isEmpty = false) ∧ ∀ pt, ran.countP (memN pt) = (memN pt d).toNat) ∧
+    (d.length = 3 → runLoop (opsN sel3) E fuel k P slot d s = some (ran, dropped, s') →
+      dropped = [] ∧ (∀ c ∈ ran, c.any R1.isEmpty = false) ∧ ∀ pt, ran.countP (memN pt) = (memN pt d).toNat) ∧
+    (1 ≤ d.length → runLoop (opsN selNd) E fuel k P slot d s = some (ran, dropped, s') →
+      dropped = [] ∧ (∀ c ∈ ran, c.any R1.isEmpty = false) ∧ ∀ pt, ran.countP (memN pt) = (memN pt d).toNat) := by
+  refine ⟨fun hl h => ?_, fun hl h => ?_, fun hl h => ?_⟩
+  · obtain ⟨h1, h2, h3, _⟩ := loop_exactly_once sem2 E fuel k P slot d s s' ran dropped ⟨hl, hwf, trivial⟩ hP h
+    have hd := h3 hnc; subst hd
+    simp only [List.append_nil] at h1 h2
+    exact ⟨rfl, fun c hc => (h1 c hc).2, h2⟩
+  · obtain ⟨h1, h2, h3, _⟩ := loop_exactly_once sem3 E fuel k P slot d s s' ran dropped ⟨hl, hwf, trivial⟩ hP h
+    have hd := h3 hnc; subst hd
+    simp only [List.append_nil] at h1 h2
+    exact ⟨rfl, fun c hc => (h1 c hc).2, h2⟩
+  · obtain ⟨h1, h2, h3, _⟩ := loop_exactly_once semNd E fuel k P slot d s s' ran dropped ⟨hl, hwf, trivial⟩ hP h
+    have hd := h3 hnc; subst hd
+    simp only [List.append_nil] at h1 h2
+    exact ⟨rfl, fun c hc => (h1 c hc).2, h2⟩
+
+/-- **simple_chunk_bounds.**  With `simple_partitioner` on a `blocked_range` of at least `g` elements every chunk
+handed to the body has between `⌈g/2⌉` and `g` elements — for every environment and number of threads. -/
+theorem simple_chunk_bounds {σ : Type} (E : Env σ) (fuel P slot b e g : Nat) (s s' : σ) (ran dropped : List R1)
+    (hbe : b ≤ e) (he : e < 2 ^ 64) (hg : 1 ≤ g) (hsz : g ≤ e - b)
+    (h : runLoop ops1 E fuel .simple P slot { b := b, e := e, g := g } s = some (ran, dropped, s')) :
+    ∀ c ∈ ran, (g + 1) / 2 ≤ c.e - c.b ∧ c.e - c.b ≤ g := by
+  unfold runLoop at h
+  split at h
+  · simp only [Option.some.injEq, Prod.mk.injEq] at h
+    obtain ⟨h1, _, _⟩ := h
+    subst h1
+    intro c hc; cases hc
+  · have := runTasks_simple_bounds (E := E) g fuel [({ b := b, e := e, g := g }, initPart .simple P slot)] s [] [] ran dropped s'
+      (by
+        intro x hx
+        simp only [List.mem_singleton] at hx
+        subst hx
+        exact ⟨⟨⟨hbe, he, hg⟩, rfl, by simp only; omega⟩, rfl⟩)
+      (by intro c hc; cases hc) h
+    intro c hc
+    exact ⟨(this c hc).1.2.2, (this c hc).2⟩
+
+/-- **Termination (simple_partitioner, blocked_range).**  For every environment, number of threads and input the
+closure over the task tree finishes with fuel `size + 2`: the `= some …` hypotheses of the theorems above are
+satisfiable for every input, so those theorems are not vacuous. -/
+theorem simple_terminates {σ : Type} (E : Env σ) (P slot b e g : Nat) (s : σ) (hbe : b ≤ e) (he : e < 2 ^ 64) (hg : 1 ≤ g) :
+    ∃ res, runLoop ops1 E (e - b + 2) .simple P slot { b := b, e := e, g := g } s = some res := by
+  unfold runLoop
+  split
+  · exact ⟨_, rfl⟩
+  · rename_i hne
+    have hne' : b < e := by
+      have h1 : ops1.isEmpty { b := b, e := e, g := g } = false := by simpa using hne
+      have h2 : R1.isEmpty { b := b, e := e, g := g } = false := h1
+      exact (R1.isEmpty_iff _).1 h2
+    apply runTasks_simple_total
+    · intro x hx
+      simp only [List.mem_singleton] at hx
+      subst hx
+      exact ⟨⟨hbe, he, hg⟩, hne', rfl⟩
+    · simp [workSz, sz]
+
+/-! ## parallel_for(first, last, step, f) -/
+
+/-- **strided_index_map.**  The `(first, last, step)` overload runs a `blocked_range [0, end)` with
+`end = (last-first-1)/step + 1` and calls `f(first + i*step)` for iteration `i`: this enumerates exactly the values
+`v` with `first ≤ v < last` and `(v - first) % step = 0`, each for exactly one `i` (under the documented
+precondition that the trip count is representable, here: naturals). -/
+theorem strided_index_map (first last step : Nat) (hs : 1 ≤ step) :
+    (∀ v, (∃ i, i < stridedEnd first last step ∧ stridedIndex first step i = v) ↔
+      (first ≤ v ∧ v < last ∧ (v - first) % step = 0)) ∧
+    (∀ i j, stridedIndex first step i = stridedIndex first step j → i = j) :=
+  ⟨strided_mem first last step hs, fun i j => strided_inj first step i j hs⟩
+
+/-! ## Non-vacuity -/
+
+/-- a 1-d simple_partitioner loop that finishes: `[0,10)` with grain 2 gives 6 chunks, nothing dropped -/
+example :
+    (runLoop ops1 bitsEnv 1000 .simple 4 0 { b := 0, e := 10, g := 2 } []).map (fun x => (x.1.length, x.2.1)) = some (6, []) := by
+  decide
+
+/-- an auto_partitioner loop in which every task is stolen while its parent still has two references and the
+peer-stolen flag flips according to a script: it finishes with 16 chunks, nothing dropped; the chunks tile `[0,40)` -/
+example :
+    (runLoop ops1 mockEnv 200 .auto 2 0 { b := 0, e := 40, g := 3 }
+      { stolen := true, ref2 := true, hooks := [true, false, true, true, false, false, true, true, true, false, true, true, false, true] }).map
+        (fun x => (x.1.length, x.2.1, (x.1.map (fun c => c.e - c.b)).foldl (· + ·) 0)) = some (16, [], 40) := by
+  decide
+
+example : PropOK 2 1 ∧ PropOK 8 8 ∧ ¬ PropOK 1 0 ∧ PartInv (initPart .affinity 12 3) := by
+  refine ⟨by decide, by decide, by decide, ?_⟩
+  exact partInv_init _ _ _ (by decide)
+
+example : WF1 { b := 3, e := 2 ^ 63 + 5, g := 7 } ∧ R1.divisible { b := 3, e := 2 ^ 63 + 5, g := 7 } = true := by
+  constructor
+  · exact ⟨by decide, by decide, by decide⟩
+  · decide
+
+example : stridedEnd 5 20 7 = 3 ∧ stridedIndex 5 7 2 = 19 := by decide
+
+/-- the ring after `split_to_fill(5)`, `pop_front`, `pop_back`, `split_to_fill(7)` on `[0,100)` grain 1 -/
+example :
+    (([RV.Op.fill 5, .popFront, .popBack, .fill 7].foldl (RV.step ops1) (RV.init { b := 0, e := 100, g := 1 }, [])).1.toList.map
+      (fun x => (x.1.b, x.1.e, x.2))) = [(3, 4, 6), (4, 6, 6), (6, 12, 4), (12, 25, 3), (25, 50, 2)] := by
+  decide
+
 end TbbVerif.C05
